@@ -27,6 +27,17 @@ import time
 VERIF = os.path.dirname(os.path.dirname(os.path.abspath(__file__)))
 REPO = os.environ.get("VERIF_REPO", "/repo")
 COQ = os.path.join(VERIF, "coq")
+# A run against another tree (VERIF_REPO=<scratch worktree>, used for mutation/seed testing) must not
+# disturb the shared development: it works on a private copy of coq/ (regenerated gen files, .vo files)
+# and writes its evidence and replays under a private directory.
+ALT_RUN = os.path.realpath(REPO) != "/repo"
+OUTDIR = VERIF
+if ALT_RUN:
+    OUTDIR = "/var/tmp/verif-alt-" + hashlib.sha1(os.path.realpath(REPO).encode()).hexdigest()[:12]
+    os.makedirs(os.path.join(OUTDIR, "coq"), exist_ok=True)
+    subprocess.run(["rsync", "-a", "--delete", "--exclude", "cases/", "--exclude", ".lock*",
+                    os.path.join(VERIF, "coq") + "/", os.path.join(OUTDIR, "coq") + "/"], check=True)
+    COQ = os.path.join(OUTDIR, "coq")
 GO_TOOLCHAINS = [
     "/root/go/pkg/mod/golang.org/toolchain@v0.0.1-go1.26.0.linux-amd64/bin",
     "/opt/veriftools/go1.26.8/bin",
@@ -428,7 +439,7 @@ class Outcome:
         self.coverage = {}
         self.assumptions = []
         self.notes = []
-        self.replay_dir = os.path.join(VERIF, "replays")
+        self.replay_dir = os.path.join(OUTDIR, "replays")
         os.makedirs(self.replay_dir, exist_ok=True)
         self.kf = load_known_findings()
         self._known_seen = set()
@@ -469,8 +480,8 @@ class Outcome:
             ev["notes"] = self.notes
         if self.known:
             ev["known_findings_reported"] = self.known
-        os.makedirs(os.path.join(VERIF, "evidence"), exist_ok=True)
-        with open(os.path.join(VERIF, "evidence", self.pid + ".json"), "w") as f:
+        os.makedirs(os.path.join(OUTDIR, "evidence"), exist_ok=True)
+        with open(os.path.join(OUTDIR, "evidence", self.pid + ".json"), "w") as f:
             json.dump(ev, f, indent=1, default=str)
         for k in self.known:
             print("KNOWN-FINDING: property=%s %s" % (self.pid, k))
